@@ -5,5 +5,6 @@ CONSTANTS
   HasIds = FALSE
   PrebuiltWrapper = TRUE
   PoolLocked = TRUE
+  StaticScratch = FALSE
   MaxRuns = 1
 INVARIANT RaceFree
